@@ -128,7 +128,7 @@ func TestMain(m *testing.M) {
 	if k := os.Getenv("C14_CHILD"); k != "" {
 		os.Exit(firstDecode(k))
 	}
-	R.Require("first_decode")
+	R.Require("first_decode", "loader_history")
 	for _, s := range []string{"pkcs8pem", "pkcs8pem_pwd", "pubpem", "pkix", "hexpriv", "hexpub", "compress", "sigder", "cipherasn1"} {
 		R.Require(s+"/lz_d", s+"/lz_x", s+"/lz_y")
 	}
@@ -759,6 +759,38 @@ func TestC14_Loaders(t *testing.T) {
 			}
 		} else if lerr == nil {
 			t.Fatalf("%s ACCEPTED a %s certificate with a key that does not match (%s)", loader, certKind, keyRel)
+		}
+		if keyRel == "match" && certKind == "sm2" {
+			// history: the certificate has just been loaded with its own key; the SAME certificate offered with another key
+			// right afterwards is as much a mismatch as it would be in a fresh process (and the matching pair still loads)
+			other := sm2KeyPEM(t, k2)
+			call := func(key []byte) (gmtls.Certificate, error) {
+				switch loader {
+				case "X509KeyPair":
+					return gmtls.X509KeyPair(certPEM, key)
+				case "LoadX509KeyPair":
+					return gmtls.LoadX509KeyPair(write("c.pem", certPEM), write("k.pem", key))
+				case "GMX509KeyPairs":
+					return gmtls.GMX509KeyPairs(certPEM, key, encCert, encKey)
+				case "GMX509KeyPairsSingle":
+					return gmtls.GMX509KeyPairsSingle(certPEM, key)
+				case "LoadGMX509KeyPair":
+					return gmtls.LoadGMX509KeyPair(write("c.pem", certPEM), write("k.pem", key))
+				}
+				return gmtls.LoadGMX509KeyPairs(write("c.pem", certPEM), write("k.pem", key), write("ec.pem", encCert), write("ek.pem", encKey))
+			}
+			var err2, err3 error
+			var c3 gmtls.Certificate
+			if pn := hx.Try(func() { _, err2 = call(other); c3, err3 = call(keyPEM) }); pn != nil {
+				t.Fatalf("%s panicked on the second load of a certificate: %v", loader, pn.Val)
+			}
+			if err2 == nil {
+				t.Fatalf("%s ACCEPTED a certificate with a key that does not match, right after the same certificate had been loaded with its own key", loader)
+			}
+			if pk, ok := c3.PrivateKey.(*sm2.PrivateKey); err3 != nil || !ok || pk.D.Cmp(k1.D) != 0 {
+				t.Fatalf("%s: the matching pair no longer loads after a mismatching attempt: %v", loader, err3)
+			}
+			R.Class("loader_history")
 		}
 		rel := "mismatch"
 		if keyRel == "match" {
